@@ -1,6 +1,7 @@
 package c18
 
 import (
+	"bytes"
 	"fmt"
 	"os"
 	"sort"
@@ -9,6 +10,7 @@ import (
 
 	"pgregory.net/rapid"
 
+	"github.com/goplus/gogen"
 	"github.com/goplus/gogen/verifhook"
 
 	"gogenverif/sim/baton"
@@ -32,11 +34,12 @@ type TaskRec struct {
 }
 
 type Record struct {
-	Tasks     []TaskRec `json:"tasks"`
-	Sched     []int     `json:"sched"`
-	MapDflt   int       `json:"map_default"`
-	PoolDflt  int       `json:"pool_default"`
-	ConcFirst bool      `json:"conc_first,omitempty"` // the concurrent run comes before the sequential baseline (so that first-use writes happen while packages build concurrently)
+	Tasks      []TaskRec `json:"tasks"`
+	Sched      []int     `json:"sched"`
+	MapDflt    int       `json:"map_default"`
+	PoolDflt   int       `json:"pool_default"`
+	SharedConf int       `json:"shared_conf,omitempty"` // > 0: that many small packages are created from ONE *gogen.Config whose Importer and Fset are nil (each package then gets gogen's own default importer, which runs the listing command)
+	ConcFirst  bool      `json:"conc_first,omitempty"`  // the concurrent run comes before the sequential baseline (so that first-use writes happen while packages build concurrently)
 }
 
 var env *run.Env
@@ -92,6 +95,15 @@ func TestMain(m *testing.M) {
 
 func gen(rt *rapid.T) any {
 	r := &Record{}
+	// (race build only: the tasks run one at a time, so without the detector a shared
+	// importer cannot show; each such record runs the real listing command 8 to 12 times)
+	if raceBuild && rapid.IntRange(0, 39).Draw(rt, "shared_conf") == 0 {
+		r.SharedConf = rapid.IntRange(2, 3).Draw(rt, "nshared")
+		for i := rapid.IntRange(0, 12).Draw(rt, "nsched"); i > 0; i-- {
+			r.Sched = append(r.Sched, rapid.IntRange(0, maxTasks-1).Draw(rt, "pick"))
+		}
+		return r
+	}
 	n := rapid.IntRange(2, maxTasks).Draw(rt, "ntasks")
 	same := rapid.IntRange(0, 2).Draw(rt, "same_program") == 0
 	var first *prog.Program
@@ -180,8 +192,101 @@ func solo(t *TaskRec) *run.Result {
 
 var raceBuild = verifhook.RaceEnabled
 
+// smallBuild builds a tiny package directly through the builder API (no front end) from
+// conf; yield is called between the steps.
+func smallBuild(conf *gogen.Config, k int, yield func()) (text string, err string) {
+	defer func() {
+		if rr := recover(); rr != nil {
+			err = fmt.Sprint(rr)
+		}
+	}()
+	pkg := gogen.NewPackage("", "main", conf)
+	yield()
+	fmtp := pkg.Import("fmt")
+	yield()
+	strs := pkg.Import("strings")
+	yield()
+	cb := pkg.NewFunc(nil, "main", nil, nil, false).BodyStart(pkg)
+	cb.Val(fmtp.Ref("Println")).Val(strs.Ref("ToUpper")).Val(fmt.Sprintf("x%d", k)).Call(1).Val(k).Call(2).EndStmt()
+	yield()
+	cb.End()
+	var buf bytes.Buffer
+	if e := pkg.WriteTo(&buf); e != nil {
+		return "", e.Error()
+	}
+	return buf.String(), ""
+}
+
+// smallBase caches the sequential baseline of smallBuild (a fresh Config each).
+var smallBase [maxTasks]string
+
+// execSharedConf: packages created from one Config with a nil Importer each get their own
+// default importer (the listing command really runs); built concurrently they must not
+// share anything.
+func execSharedConf(r *Record) *core.Outcome {
+	out := &core.Outcome{}
+	n := r.SharedConf
+	if n > maxTasks {
+		n = maxTasks
+	}
+	var base []string
+	for i := 0; i < n; i++ {
+		if smallBase[i] == "" {
+			txt, e := smallBuild(&gogen.Config{}, i, func() {})
+			if e != "" {
+				out.Observe("default_importer_unavailable")
+				out.HistHash, out.ObsHash = "noimporter", "noimporter"
+				return out
+			}
+			smallBase[i] = txt
+		}
+		base = append(base, smallBase[i])
+	}
+	conf := &gogen.Config{}
+	s := baton.New()
+	texts := make([]string, n)
+	errs := make([]string, n)
+	for i := 0; i < n; i++ {
+		i := i
+		s.Go(func(t *baton.Task) { texts[i], errs[i] = smallBuild(conf, i, t.Yield) })
+	}
+	sched := r.Sched
+	s.Pick = func(step int, runnable []int, last int) int {
+		if step < len(sched) {
+			return runnable[sched[step]%len(runnable)]
+		}
+		for _, x := range runnable {
+			if x > last {
+				return x
+			}
+		}
+		return runnable[0]
+	}
+	s.Run()
+	out.Ops, out.Steps = 6*n, s.Steps
+	out.HistHash = core.Hash(fmt.Sprint(n, r.Sched))
+	out.ObsHash = core.Hash(texts...)
+	out.Probe("shared_config_nil_importer_run")
+	for i := 0; i < n; i++ {
+		if errs[i] != "" {
+			out.Violate(P, "shared-config-build-fails", fmt.Sprintf("package %d of %d created from one Config (nil Importer) failed when built concurrently: %s", i, n, errs[i]))
+			return out
+		}
+		if texts[i] != base[i] {
+			out.Violate(P, "output-differs-from-sequential", fmt.Sprintf("package %d of %d created from one Config (nil Importer): %s", i, n, firstDiff([]byte(base[i]), []byte(texts[i]))))
+			return out
+		}
+	}
+	out.Shape = core.Hash("sharedconf", fmt.Sprint(n, s.Trace))
+	out.Nontrivial = false
+	return out
+}
+
 func exec1(rec any) *core.Outcome {
 	r := rec.(*Record)
+	if r.SharedConf > 0 {
+		return execSharedConf(r)
+	}
 	out := &core.Outcome{}
 	tp := &seams.Tapes{Default: r.MapDflt, PoolDflt: r.PoolDflt}
 	seams.Install(tp)
